@@ -64,3 +64,82 @@ Proof. vm_compute. reflexivity. Qed.
 Theorem justified_fields_exist :
   forallb (fun j => existsb (fun r => beqb (fst (fst (fst r))) j) cpd_fields) justified = true.
 Proof. vm_compute. reflexivity. Qed.
+
+(** ** static-storage variables outside cpd (second generated inventory): every one that is not declared const/constexpr is
+    reviewed here - constant in effect, per invocation (configuration), diagnostics only, or emptied per file.  A new
+    mutable static - the classic way for one file to leave something behind for the next - is not in this list. *)
+Definition statics_ok : list (list Z * list Z) := [
+  (* char_table.h chars: constant classification table, never written *)
+  ([99;104;97;114;95;116;97;98;108;101;46;104], [99;104;97;114;115]);
+  (* chunk.cpp gChunkList: the chunk list: emptied by uncrustify_end() (every chunk deleted) - C11's batch oracle compares the dumped lists *)
+  ([99;104;117;110;107;46;99;112;112], [103;67;104;117;110;107;76;105;115;116]);
+  (* chunk.h NullChunk: the null chunk sentinel, never linked into the list *)
+  ([99;104;117;110;107;46;104], [78;117;108;108;67;104;117;110;107]);
+  (* chunk_tag_t_keywords.h keywords: keyword table, sorted once at start-up (init_keywords), not written per file *)
+  ([99;104;117;110;107;95;116;97;103;95;116;95;107;101;121;119;111;114;100;115;46;104], [107;101;121;119;111;114;100;115]);
+  (* keywords.cpp dkwm: dynamic keywords of the configuration (load once per invocation) *)
+  ([107;101;121;119;111;114;100;115;46;99;112;112], [100;107;119;109]);
+  (* keywords.cpp keyword_for_lang: scratch table rebuilt by keywords_are_sorted()/init per language query from constants *)
+  ([107;101;121;119;111;114;100;115;46;99;112;112], [107;101;121;119;111;114;100;95;102;111;114;95;108;97;110;103]);
+  (* keywords.cpp language_count: size of the scratch table above *)
+  ([107;101;121;119;111;114;100;115;46;99;112;112], [108;97;110;103;117;97;103;101;95;99;111;117;110;116]);
+  (* language_names.cpp language_names: constant name table *)
+  ([108;97;110;103;117;97;103;101;95;110;97;109;101;115;46;99;112;112], [108;97;110;103;117;97;103;101;95;110;97;109;101;115]);
+  (* language_names.cpp lang_liste: buffer for a usage message *)
+  ([108;97;110;103;117;97;103;101;95;110;97;109;101;115;46;99;112;112], [108;97;110;103;95;108;105;115;116;101]);
+  (* language_names.h g_ext_map: file_ext map of the configuration (once per invocation) *)
+  ([108;97;110;103;117;97;103;101;95;110;97;109;101;115;46;104], [103;95;101;120;116;95;109;97;112]);
+  (* logger.cpp g_fq: function-name stack of the logger (diagnostics only) *)
+  ([108;111;103;103;101;114;46;99;112;112], [103;95;102;113]);
+  (* logger.cpp g_log: log buffer and severity mask (diagnostics only) *)
+  ([108;111;103;103;101;114;46;99;112;112], [103;95;108;111;103]);
+  (* option.cpp config_name_logged: diagnostic 'config file name printed once' flag *)
+  ([111;112;116;105;111;110;46;99;112;112], [99;111;110;102;105;103;95;110;97;109;101;95;108;111;103;103;101;100]);
+  (* option.cpp include_depth: nesting depth of 'include' while a configuration is loaded; back to 0 when loading ends *)
+  ([111;112;116;105;111;110;46;99;112;112], [105;110;99;108;117;100;101;95;100;101;112;116;104]);
+  (* option.cpp eol: line-end text of the configuration writer, set once from the first file written *)
+  ([111;112;116;105;111;110;46;99;112;112], [101;111;108]);
+  (* output.cpp regex_map: cache of compiled regular expressions keyed by the option values they were built from (pure function of the key) *)
+  ([111;117;116;112;117;116;46;99;112;112], [114;101;103;101;120;95;109;97;112]);
+  (* parsing_frame_stack.cpp seq_ref_no: sequence number used in log lines only *)
+  ([112;97;114;115;105;110;103;95;102;114;97;109;101;95;115;116;97;99;107;46;99;112;112], [115;101;113;95;114;101;102;95;110;111]);
+  (* unc_tools.cpp counter: debug dump counter (prot_the_line), diagnostics only *)
+  ([117;110;99;95;116;111;111;108;115;46;99;112;112], [99;111;117;110;116;101;114]);
+  (* unc_tools.cpp tokenCounter: debug dump counter, diagnostics only *)
+  ([117;110;99;95;116;111;111;108;115;46;99;112;112], [116;111;107;101;110;67;111;117;110;116;101;114]);
+  (* unc_tools.cpp file_num: debug dump file number, diagnostics only *)
+  ([117;110;99;95;116;111;111;108;115;46;99;112;112], [102;105;108;101;95;110;117;109]);
+  (* width.cpp pri_table: constant priority table *)
+  ([119;105;100;116;104;46;99;112;112], [112;114;105;95;116;97;98;108;101]);
+  (* tokenizer/tokenize.cpp intr_txt: constant text used for comparison *)
+  ([116;111;107;101;110;105;122;101;114;47;116;111;107;101;110;105;122;101;46;99;112;112], [105;110;116;114;95;116;120;116])
+].
+
+Definition is_const_static (v : list Z * list Z * bool * bool) : bool := snd (fst v).
+Definition static_key (v : list Z * list Z * bool * bool) : list Z * list Z := (fst (fst (fst v)), snd (fst (fst v))).
+Definition key_eqb (a b : list Z * list Z) : bool := beqb (fst a) (fst b) && beqb (snd a) (snd b).
+
+(** a static declared const still carries state when it is function-local and initialised at first use from something
+    that differs per file: such locals are listed, too (only constants of the invocation qualify) *)
+Definition const_locals_ok : list (list Z * list Z) := [
+  (* uncrustify.cpp lang_flags_from_cli: see above *)
+  ([117;110;99;114;117;115;116;105;102;121;46;99;112;112], [108;97;110;103;95;102;108;97;103;115;95;102;114;111;109;95;99;108;105]);
+  (* option.cpp values: literal value-name tables of the option types *)
+  ([111;112;116;105;111;110;46;99;112;112], [118;97;108;117;101;115]);
+  (* unicode.cpp min_value: literal table *)
+  ([117;110;105;99;111;100;101;46;99;112;112], [109;105;110;95;118;97;108;117;101]);
+  (* parsing_frame.cpp CONTAINER_INIT_SIZE: constexpr literal *)
+  ([112;97;114;115;105;110;103;95;102;114;97;109;101;46;99;112;112], [67;79;78;84;65;73;78;69;82;95;73;78;73;84;95;83;73;90;69])
+].
+
+Definition unreviewed_statics : list (list Z * list Z) :=
+  map static_key (filter (fun v => negb (if is_const_static v
+                                         then negb (snd v) || existsb (key_eqb (static_key v)) (const_locals_ok ++ statics_ok)
+                                         else existsb (key_eqb (static_key v)) statics_ok)) static_vars).
+
+Theorem statics_reviewed : unreviewed_statics = [].
+Proof. vm_compute. reflexivity. Qed.
+
+Theorem reviewed_statics_exist :
+  forallb (fun k => existsb (fun v => key_eqb (static_key v) k) static_vars) (statics_ok ++ const_locals_ok) = true.
+Proof. vm_compute. reflexivity. Qed.
